@@ -1,15 +1,19 @@
 /-
   Props.C15 — embedded XPath is checked at compile time in the right prefix scope.
 
-  What a theorem carries here is small: which prefixes a name test may carry is decided by `pfxOk` against
-  the import map of the module the text is written in — a function of that map alone, so copying the
-  statement into another module (uses, augment) cannot change the verdict.  That every must / when / path of
-  a module set is parsed with exactly that map, that a syntax error or unknown prefix anywhere fails the
-  compile with an error naming the statement, and the namespace every name test resolves to, are compared on
-  the real compiler against the Lean XPath lexer + parser model (the model of C03 / C04 / C05) by the
-  correspondence stream `yxp`.
+  Proved: which prefixes a name test may carry is decided by `pfxOk` against the import map of the module the
+  text is written in — a function of that map alone, so copying the statement into another module (uses,
+  augment) cannot change the verdict (`C15_prefix_scope`); and **an unknown prefix is an error, whatever
+  the expression looks like** (`C15_unknown_prefix_is_error`): for every byte string, both grammars and every
+  prefix map, if a machine is built then every name test in it carries no prefix or one of the map — through
+  the whole lexer (name, prefixed name, wildcard forms, whitespace around the colon) and both parsers
+  (invariant over the eleven / six mutually recursive functions: a Name-Push is only ever emitted for the
+  NAMETEST token being looked at).  That every must / when / path of a module set is parsed with exactly the
+  map of its textual module, that the error names the statement, and the namespace every name test resolves
+  to, are compared on the real compiler against this lexer + parser model by the correspondence stream `yxp`.
 -/
 import YV.Model.XParse
+import YV.Proofs.XNames
 namespace YV.Props.C15
 open YV YV.X YV.XL YV.XP
 
@@ -18,6 +22,15 @@ open YV YV.X YV.XL YV.XP
 theorem C15_prefix_scope (ps : List (List Rune)) (p : List Rune) :
     pfxOk (some ps) p = true ↔ p = [] ∨ p ∈ ps := by
   simp [pfxOk, List.isEmpty_iff]
+
+/-- **C15 (an unknown prefix is an error).** whatever the text: a machine is only built when every name test
+    in it has a prefix the map accepts; with a map `some ps` that is: no prefix, or one of `ps` -/
+theorem C15_unknown_prefix_is_error (strict fixed : Bool) (g : Grammar) (ps : List (List Rune)) (bs : List Nat)
+    (prog : List PI) (h : build strict fixed g (some ps) bs = .machine prog) :
+    ∀ p l, PI.namePush p l ∈ prog → p = [] ∨ p ∈ ps := by
+  intro p l hm
+  have := build_names strict fixed g bs prog h (.namePush p l) hm
+  exact (C15_prefix_scope ps p).mp this
 
 /-- the verdict on a prefix depends on the import map of the text, nothing else: two modules that map the
     same prefix to different modules both accept it; a module that does not import it rejects it even when
